@@ -858,7 +858,8 @@ func main() {
 	if thorough {
 		depth = 7
 	}
-	for _, size := range []int{1, 4, 8} {
+	sizes := []int{1, 2, 3, 4, 8}
+	for _, size := range sizes {
 		for a := 0; a < nOps; a++ {
 			for b := 0; b < nOps; b++ {
 				items = append(items, fmt.Sprintf("seq|%d|%d|%d,%d", size, depth, a, b))
@@ -873,7 +874,10 @@ func main() {
 		items = append(items, fmt.Sprintf("seq|0|%d|%d", ddepth, a))
 	}
 	// short sequences (shorter than the item prefixes)
-	items = append(items, "seq|1|1|", "seq|4|1|", "seq|8|1|", "seq|0|0|")
+	for _, size := range sizes {
+		items = append(items, fmt.Sprintf("seq|%d|1|", size))
+	}
+	items = append(items, "seq|0|0|")
 	nseq := len(items)
 	// (b) concurrent
 	pre := 2
